@@ -51,7 +51,7 @@ def floors(tier):
             "end=close": 300, "end=timeout": 300, "end=oserror": 300, "end=reset": 300, "end=aborted": 300, "all-compositions": 1000,
             "bufsize=1": 100, "bufsize=4096": 100, "session>64KiB": 12, "quiet-period": 200,
             "reader-sole-owner-of-socket": 300, "quiet-period:non-blocking-socket": 50,
-            "duplex": 300, "sock=tls-like": 30, "sock=datagram": 30, "writes-fail": 100, "blocking": 100}
+            "delivery-ends-at-frame-end": 100, "duplex": 300, "sock=tls-like": 30, "sock=datagram": 30, "writes-fail": 100, "blocking": 100}
 
 
 def plan(tier, seed):
@@ -180,6 +180,7 @@ def check_one(case) -> core.Out:
                 out.classes.append("quiet-period:non-blocking-socket")
             sock = S.ScriptedSocket(data, case["chunks"], "close", pauses=case["pauses"],
                                     pause_exc=BlockingIOError if nonblocking else TimeoutError)
+            sock.settimeout(0.0 if nonblocking else 0.5)  # (quiet periods only show on sockets that do not block for ever)
             try:
                 rd = S.mk_reader(sock, dict(opts, bufsize=case["bufsize"]))
                 got, idle = [], 0
@@ -454,8 +455,30 @@ def run_shard(spec, ctx, acc):
 
         core.hyp_search(acc, longcases(), check, seed=core.derive(ctx["seed"], PROP, "long", spec["part"]),
                         max_examples=5 if quick else 60, known=known, rounds=1, shrink=False)
-        # the largest payloads the length field can express, whole, between small frames
+        # block-sized frames whose last delivery ends exactly at the end of the frame
         import hashlib
+
+        ack0 = S.codec.ubx_frame(b"\x05", b"\x01", b"\x06\x01")
+        txt0 = S.codec.nmea_frame("GNGLL,5327.04319,N,00214.41396,W,223232.00,A,A")
+        for n in ([4088, 4094, 8190] if spec["part"] % 2 == 0 else [4096, 5000, 12286]):
+            big = S.codec.ubx_frame(b"\x04", b"\x02", hashlib.shake_256(bytes([n & 0xFF, 7])).digest(n))
+            data = ack0 + big + ack0 + txt0 + ack0
+            end_big = len(ack0) + len(big)
+            for step in (1000, 4096, 1460, 512):
+                chunks = [len(ack0)]
+                left = len(big)
+                while left > 0:
+                    chunks.append(min(step, left))
+                    left -= chunks[-1]
+                assert sum(chunks) == end_big
+                chunks += [len(ack0), 7, 4096]
+                for bufsize in (4096, 65536, 1024):
+                    case = {"kind": "reader", "data": data, "items": None, "long": False,
+                            "opts": {"msgmode": 0, "validate": 1, "parsebitfield": 1, "quitonerror": 0, "protfilter": 7},
+                            "chunks": chunks, "bufsize": bufsize, "end": ("close", "timeout")[(n + step) % 2]}
+                    o = core.checked(check, case)
+                    o.classes = list(o.classes) + ["delivery-ends-at-frame-end"]
+                    core.handle(acc, o, case, known)
 
         ack = S.codec.ubx_frame(b"\x05", b"\x01", b"\x06\x01")
         for n in ([65535, 65534] if spec["part"] % 2 == 0 else [65533, 65535]):
